@@ -6,13 +6,14 @@ import MesonModel.Install.RuleLemmas
 
 namespace MesonModel.Install
 
-/-- only headers, man pages and data (no subdirectories, targets, empty directories or symlinks) -/
-def FilesOnly (p : Plan) : Prop := p.subdirs = [] ∧ p.targets = [] ∧ p.emptydirs = [] ∧ p.symlinks = []
+/-- file rules only: file targets, headers, man pages and data (no subdirectories, empty directories, symlinks) -/
+def FilesOnly (p : Plan) : Prop := p.subdirs = [] ∧ p.emptydirs = [] ∧ p.symlinks = []
 
-/-- destination keys of the selected rules, in installation order -/
+/-- destination keys of the selected rules, in installation order: targets, headers, man pages, data -/
 def plannedKeys (cfg : Cfg) (p : Plan) : List Key :=
-  (p.headers.filter (selData cfg)).map (headerKey cfg) ++
-  ((p.man.filter (selData cfg)).map (dataKey cfg) ++ (p.data.filter (selData cfg)).map (dataKey cfg))
+  (p.targets.filter (selTarget cfg)).map (targetKey cfg) ++
+  ((p.headers.filter (selData cfg)).map (headerKey cfg) ++
+  ((p.man.filter (selData cfg)).map (dataKey cfg) ++ (p.data.filter (selData cfg)).map (dataKey cfg)))
 
 theorem pairwise_of_nodup {α} (sel : α → Bool) (key : α → Key) (l : List α)
     (h : ((l.filter sel).map key).Nodup) : l.Pairwise (fun a b => sel a = true → sel b = true → key a ≠ key b) := by
@@ -42,101 +43,188 @@ section
 variable {D : Key} (cfg : Cfg) (hdry : cfg.dryRun = false) (honly : cfg.onlyChanged = false) (hD : D ≠ [])
   (hdest : Dest cfg D)
 
+theorem keep_node {a b : Option Node} {n : Node} {m : Nat} (ha : a = some n)
+    (hb : b = a ∨ (a = none ∧ b = some (.dir m))) : b = some n := by
+  rcases hb with e | ⟨e, _⟩
+  · rw [e, ha]
+  · rw [ha] at e; cases e
+
 include hdry honly hD hdest in
-/-- the three folds of a files-only plan, with pairwise different destinations -/
+/-- the four folds of a files-only plan did not raise if the last did not -/
+theorem filesBody_phases (p : Plan) (hfo : FilesOnly p) (s : St) (hf : (installBody cfg p s).failed = false) :
+    installBody cfg p s = p.data.foldl (installDataOne cfg) (p.man.foldl (installMan cfg)
+      (p.headers.foldl (installHeader cfg) (p.targets.foldl (installTarget cfg) s))) ∧
+    (p.targets.foldl (installTarget cfg) s).failed = false ∧
+    (p.headers.foldl (installHeader cfg) (p.targets.foldl (installTarget cfg) s)).failed = false ∧
+    (p.man.foldl (installMan cfg) (p.headers.foldl (installHeader cfg) (p.targets.foldl (installTarget cfg) s))).failed = false := by
+  obtain ⟨h1, h3, h4⟩ := hfo
+  have hbody : installBody cfg p s = p.data.foldl (installDataOne cfg) (p.man.foldl (installMan cfg)
+      (p.headers.foldl (installHeader cfg) (p.targets.foldl (installTarget cfg) s))) := by
+    unfold installBody; simp only [h1, h3, h4, List.foldl_nil]
+  rw [hbody] at hf
+  have RH := ruleSpec_header cfg hdry honly hD hdest
+  have RM := ruleSpec_man cfg hdry honly hD hdest
+  have RD := ruleSpec_data cfg hdry honly hD hdest
+  have hf3 : (p.man.foldl (installMan cfg) (p.headers.foldl (installHeader cfg) (p.targets.foldl (installTarget cfg) s))).failed = false := by
+    by_cases e : (p.man.foldl (installMan cfg) (p.headers.foldl (installHeader cfg) (p.targets.foldl (installTarget cfg) s))).failed = true
+    · rw [foldl_failed_sticky RD _ _ e] at hf; rw [hf] at e; cases e
+    · simpa using e
+  have hf2 : (p.headers.foldl (installHeader cfg) (p.targets.foldl (installTarget cfg) s)).failed = false := by
+    by_cases e : (p.headers.foldl (installHeader cfg) (p.targets.foldl (installTarget cfg) s)).failed = true
+    · rw [foldl_failed_sticky RM _ _ e] at hf3; rw [hf3] at e; cases e
+    · simpa using e
+  have hf1 : (p.targets.foldl (installTarget cfg) s).failed = false := by
+    by_cases e : (p.targets.foldl (installTarget cfg) s).failed = true
+    · rw [foldl_failed_sticky RH _ _ e] at hf2; rw [hf2] at e; cases e
+    · simpa using e
+  exact ⟨hbody, hf1, hf2, hf3⟩
+
+include hdry honly hD hdest in
+/-- overlapping destinations: within a list the later rule wins; across lists the order is targets, headers,
+man pages, data -/
+theorem filesBody_last_wins (p : Plan) (hfo : FilesOnly p)
+    (hokT : ∀ t ∈ p.targets, okTarget t)
+    (hokH : ∀ e ∈ p.headers, okData e) (hokM : ∀ e ∈ p.man, okData e) (hokD : ∀ e ∈ p.data, okData e)
+    (s : St) (hNL : NL s.fs) (hf : (installBody cfg p s).failed = false) :
+    NL (installBody cfg p s).fs ∧
+    (∀ pre t post, p.targets = pre ++ t :: post → selTarget cfg t = true →
+      (∀ t' ∈ post, selTarget cfg t' = true → targetKey cfg t' ≠ targetKey cfg t) →
+      (∀ e ∈ p.headers, selData cfg e = true → headerKey cfg e ≠ targetKey cfg t) →
+      (∀ e ∈ p.man, selData cfg e = true → dataKey cfg e ≠ targetKey cfg t) →
+      (∀ e ∈ p.data, selData cfg e = true → dataKey cfg e ≠ targetKey cfg t) →
+      (installBody cfg p s).fs.get (targetKey cfg t) = some (targetNode cfg t)) ∧
+    (∀ pre e post, p.headers = pre ++ e :: post → selData cfg e = true →
+      (∀ e' ∈ post, selData cfg e' = true → headerKey cfg e' ≠ headerKey cfg e) →
+      (∀ e' ∈ p.man, selData cfg e' = true → dataKey cfg e' ≠ headerKey cfg e) →
+      (∀ e' ∈ p.data, selData cfg e' = true → dataKey cfg e' ≠ headerKey cfg e) →
+      (installBody cfg p s).fs.get (headerKey cfg e) = some (fileNode cfg e)) ∧
+    (∀ pre e post, p.man = pre ++ e :: post → selData cfg e = true →
+      (∀ e' ∈ post, selData cfg e' = true → dataKey cfg e' ≠ dataKey cfg e) →
+      (∀ e' ∈ p.data, selData cfg e' = true → dataKey cfg e' ≠ dataKey cfg e) →
+      (installBody cfg p s).fs.get (dataKey cfg e) = some (fileNode cfg e)) ∧
+    (∀ pre e post, p.data = pre ++ e :: post → selData cfg e = true →
+      (∀ e' ∈ post, selData cfg e' = true → dataKey cfg e' ≠ dataKey cfg e) →
+      (installBody cfg p s).fs.get (dataKey cfg e) = some (fileNode cfg e)) ∧
+    (∀ k, k ∉ plannedKeys cfg p → (installBody cfg p s).fs.get k = s.fs.get k ∨
+      (s.fs.get k = none ∧ (installBody cfg p s).fs.get k = some (.dir (andNot 0o777 cfg.procUmask)))) := by
+  obtain ⟨hbody, hf1, hf2, hf3⟩ := filesBody_phases cfg hdry honly hD hdest p hfo s hf
+  rw [hbody] at hf ⊢
+  have RT := ruleSpec_target cfg hdry honly hD hdest
+  have RH := ruleSpec_header cfg hdry honly hD hdest
+  have RM := ruleSpec_man cfg hdry honly hD hdest
+  have RD := ruleSpec_data cfg hdry honly hD hdest
+  obtain ⟨n1, g1, fr1⟩ := fold_rules_last_wins RT p.targets hokT s hNL hf1
+  obtain ⟨n2, g2, fr2⟩ := fold_rules_last_wins RH p.headers hokH _ n1 hf2
+  obtain ⟨n3, g3, fr3⟩ := fold_rules_last_wins RM p.man hokM _ n2 hf3
+  obtain ⟨n4, g4, fr4⟩ := fold_rules_last_wins RD p.data hokD _ n3 hf
+  refine ⟨n4, ?_, ?_, ?_, g4, ?_⟩
+  · intro pre t post hl hs hlater hH hM hDd
+    exact keep_node (keep_node (keep_node (g1 pre t post hl hs hlater) (fr2 _ hH)) (fr3 _ hM)) (fr4 _ hDd)
+  · intro pre e post hl hs hlater hM hDd
+    exact keep_node (keep_node (g2 pre e post hl hs hlater) (fr3 _ hM)) (fr4 _ hDd)
+  · intro pre e post hl hs hlater hDd
+    exact keep_node (g3 pre e post hl hs hlater) (fr4 _ hDd)
+  · intro k hk
+    unfold plannedKeys at hk
+    simp only [List.mem_append, List.mem_map, List.mem_filter, not_or, not_exists, not_and] at hk
+    have kT : ∀ e ∈ p.targets, selTarget cfg e = true → targetKey cfg e ≠ k := fun e he hs eq => hk.1 e ⟨he, hs⟩ eq
+    have kH : ∀ e ∈ p.headers, selData cfg e = true → headerKey cfg e ≠ k := fun e he hs eq => hk.2.1 e ⟨he, hs⟩ eq
+    have kM : ∀ e ∈ p.man, selData cfg e = true → dataKey cfg e ≠ k := fun e he hs eq => hk.2.2.1 e ⟨he, hs⟩ eq
+    have kD : ∀ e ∈ p.data, selData cfg e = true → dataKey cfg e ≠ k := fun e he hs eq => hk.2.2.2 e ⟨he, hs⟩ eq
+    exact frame_trans (frame_trans (frame_trans (fr1 k kT) (fr2 k kH)) (fr3 k kM)) (fr4 k kD)
+
+include hdry honly hD hdest in
+/-- pairwise different destinations: every selected rule's destination holds its node -/
 theorem filesBody_exact (p : Plan) (hfo : FilesOnly p)
+    (hokT : ∀ t ∈ p.targets, okTarget t)
     (hokH : ∀ e ∈ p.headers, okData e) (hokM : ∀ e ∈ p.man, okData e) (hokD : ∀ e ∈ p.data, okData e)
     (hnd : (plannedKeys cfg p).Nodup) (s : St) (hNL : NL s.fs) (hf : (installBody cfg p s).failed = false) :
     NL (installBody cfg p s).fs ∧
+    (∀ t ∈ p.targets, selTarget cfg t = true → (installBody cfg p s).fs.get (targetKey cfg t) = some (targetNode cfg t)) ∧
     (∀ e ∈ p.headers, selData cfg e = true → (installBody cfg p s).fs.get (headerKey cfg e) = some (fileNode cfg e)) ∧
     (∀ e ∈ p.man, selData cfg e = true → (installBody cfg p s).fs.get (dataKey cfg e) = some (fileNode cfg e)) ∧
     (∀ e ∈ p.data, selData cfg e = true → (installBody cfg p s).fs.get (dataKey cfg e) = some (fileNode cfg e)) ∧
     (∀ k, k ∉ plannedKeys cfg p → (installBody cfg p s).fs.get k = s.fs.get k ∨
       (s.fs.get k = none ∧ (installBody cfg p s).fs.get k = some (.dir (andNot 0o777 cfg.procUmask)))) := by
-  obtain ⟨h1, h2, h3, h4⟩ := hfo
-  unfold installBody at hf ⊢
-  simp only [h1, h2, h3, h4, List.foldl_nil] at hf ⊢
+  obtain ⟨hbody, hf1, hf2, hf3⟩ := filesBody_phases cfg hdry honly hD hdest p hfo s hf
+  rw [hbody] at hf ⊢
+  have RT := ruleSpec_target cfg hdry honly hD hdest
   have RH := ruleSpec_header cfg hdry honly hD hdest
   have RM := ruleSpec_man cfg hdry honly hD hdest
   have RD := ruleSpec_data cfg hdry honly hD hdest
-  -- the three intermediate states did not raise
-  have hf2 : ((p.man.foldl (installMan cfg) (p.headers.foldl (installHeader cfg) s))).failed = false := by
-    by_cases e : (p.man.foldl (installMan cfg) (p.headers.foldl (installHeader cfg) s)).failed = true
-    · rw [foldl_failed_sticky RD _ _ e] at hf; rw [hf] at e; cases e
-    · simpa using e
-  have hf1 : (p.headers.foldl (installHeader cfg) s).failed = false := by
-    by_cases e : (p.headers.foldl (installHeader cfg) s).failed = true
-    · rw [foldl_failed_sticky RM _ _ e] at hf2; rw [hf2] at e; cases e
-    · simpa using e
   unfold plannedKeys at hnd
-  have hndH := (List.nodup_append.mp hnd).1
-  have hndMD := (List.nodup_append.mp hnd).2.1
-  have hdisjH := (List.nodup_append.mp hnd).2.2
-  have hndM := (List.nodup_append.mp hndMD).1
-  have hndD := (List.nodup_append.mp hndMD).2.1
-  have hdisjM := (List.nodup_append.mp hndMD).2.2
-  obtain ⟨n1, g1, fr1⟩ := fold_rules_exact RH p.headers hokH (pairwise_of_nodup _ _ _ hndH) s hNL hf1
-  obtain ⟨n2, g2, fr2⟩ := fold_rules_exact RM p.man hokM (pairwise_of_nodup _ _ _ hndM) _ n1 hf2
-  obtain ⟨n3, g3, fr3⟩ := fold_rules_exact RD p.data hokD (pairwise_of_nodup _ _ _ hndD) _ n2 hf
-  -- membership helpers
+  have hndT := (List.nodup_append.mp hnd).1
+  have hnd2 := (List.nodup_append.mp hnd).2.1
+  have hdisjT := (List.nodup_append.mp hnd).2.2
+  have hndH := (List.nodup_append.mp hnd2).1
+  have hnd3 := (List.nodup_append.mp hnd2).2.1
+  have hdisjH := (List.nodup_append.mp hnd2).2.2
+  have hndM := (List.nodup_append.mp hnd3).1
+  have hndD := (List.nodup_append.mp hnd3).2.1
+  have hdisjM := (List.nodup_append.mp hnd3).2.2
+  obtain ⟨n1, g1, fr1⟩ := fold_rules_exact RT p.targets hokT (pairwise_of_nodup _ _ _ hndT) s hNL hf1
+  obtain ⟨n2, g2, fr2⟩ := fold_rules_exact RH p.headers hokH (pairwise_of_nodup _ _ _ hndH) _ n1 hf2
+  obtain ⟨n3, g3, fr3⟩ := fold_rules_exact RM p.man hokM (pairwise_of_nodup _ _ _ hndM) _ n2 hf3
+  obtain ⟨n4, g4, fr4⟩ := fold_rules_exact RD p.data hokD (pairwise_of_nodup _ _ _ hndD) _ n3 hf
+  have memT : ∀ e ∈ p.targets, selTarget cfg e = true → targetKey cfg e ∈ (p.targets.filter (selTarget cfg)).map (targetKey cfg) :=
+    fun e he hs => List.mem_map.mpr ⟨e, List.mem_filter.mpr ⟨he, hs⟩, rfl⟩
   have memH : ∀ e ∈ p.headers, selData cfg e = true → headerKey cfg e ∈ (p.headers.filter (selData cfg)).map (headerKey cfg) :=
     fun e he hs => List.mem_map.mpr ⟨e, List.mem_filter.mpr ⟨he, hs⟩, rfl⟩
   have memM : ∀ e ∈ p.man, selData cfg e = true → dataKey cfg e ∈ (p.man.filter (selData cfg)).map (dataKey cfg) :=
     fun e he hs => List.mem_map.mpr ⟨e, List.mem_filter.mpr ⟨he, hs⟩, rfl⟩
   have memD : ∀ e ∈ p.data, selData cfg e = true → dataKey cfg e ∈ (p.data.filter (selData cfg)).map (dataKey cfg) :=
     fun e he hs => List.mem_map.mpr ⟨e, List.mem_filter.mpr ⟨he, hs⟩, rfl⟩
-  -- a node that is there is kept by a later fold that does not aim at its key
-  have keep : ∀ {a b : Option Node} {n : Node} {m : Nat}, a = some n → (b = a ∨ (a = none ∧ b = some (.dir m))) → b = some n := by
-    intro a b n m ha hb
-    rcases hb with e | ⟨e, _⟩
-    · rw [e, ha]
-    · rw [ha] at e; cases e
-  refine ⟨n3, ?_, ?_, g3, ?_⟩
+  refine ⟨n4, ?_, ?_, ?_, g4, ?_⟩
+  · intro t ht hs
+    have hk := memT t ht hs
+    have a2 := keep_node (g1 t ht hs) (fr2 _ (fun e' he' hs' eq =>
+      hdisjT _ hk _ (List.mem_append.mpr (Or.inl (memH e' he' hs'))) eq.symm))
+    have a3 := keep_node a2 (fr3 _ (fun e' he' hs' eq =>
+      hdisjT _ hk _ (List.mem_append.mpr (Or.inr (List.mem_append.mpr (Or.inl (memM e' he' hs'))))) eq.symm))
+    exact keep_node a3 (fr4 _ (fun e' he' hs' eq =>
+      hdisjT _ hk _ (List.mem_append.mpr (Or.inr (List.mem_append.mpr (Or.inr (memD e' he' hs'))))) eq.symm))
   · intro e he hs
     have hk := memH e he hs
-    have a2 := keep (g1 e he hs) (fr2 _ (fun e' he' hs' eq => hdisjH _ hk _ (List.mem_append.mpr (Or.inl (memM e' he' hs'))) eq.symm))
-    exact keep a2 (fr3 _ (fun e' he' hs' eq => hdisjH _ hk _ (List.mem_append.mpr (Or.inr (memD e' he' hs'))) eq.symm))
+    have a3 := keep_node (g2 e he hs) (fr3 _ (fun e' he' hs' eq =>
+      hdisjH _ hk _ (List.mem_append.mpr (Or.inl (memM e' he' hs'))) eq.symm))
+    exact keep_node a3 (fr4 _ (fun e' he' hs' eq =>
+      hdisjH _ hk _ (List.mem_append.mpr (Or.inr (memD e' he' hs'))) eq.symm))
   · intro e he hs
     have hk := memM e he hs
-    exact keep (g2 e he hs) (fr3 _ (fun e' he' hs' eq => hdisjM _ hk _ (memD e' he' hs') eq.symm))
+    exact keep_node (g3 e he hs) (fr4 _ (fun e' he' hs' eq => hdisjM _ hk _ (memD e' he' hs') eq.symm))
   · intro k hk
-    have kH : ∀ e ∈ p.headers, selData cfg e = true → headerKey cfg e ≠ k :=
-      fun e he hs eq => hk (List.mem_append.mpr (Or.inl (eq ▸ memH e he hs)))
-    have kM : ∀ e ∈ p.man, selData cfg e = true → dataKey cfg e ≠ k :=
-      fun e he hs eq => hk (List.mem_append.mpr (Or.inr (List.mem_append.mpr (Or.inl (eq ▸ memM e he hs)))))
-    have kD : ∀ e ∈ p.data, selData cfg e = true → dataKey cfg e ≠ k :=
-      fun e he hs eq => hk (List.mem_append.mpr (Or.inr (List.mem_append.mpr (Or.inr (eq ▸ memD e he hs)))))
-    exact frame_trans (frame_trans (fr1 k kH) (fr2 k kM)) (fr3 k kD)
+    unfold plannedKeys at hk
+    simp only [List.mem_append, List.mem_map, List.mem_filter, not_or, not_exists, not_and] at hk
+    have kT : ∀ e ∈ p.targets, selTarget cfg e = true → targetKey cfg e ≠ k := fun e he hs eq => hk.1 e ⟨he, hs⟩ eq
+    have kH : ∀ e ∈ p.headers, selData cfg e = true → headerKey cfg e ≠ k := fun e he hs eq => hk.2.1 e ⟨he, hs⟩ eq
+    have kM : ∀ e ∈ p.man, selData cfg e = true → dataKey cfg e ≠ k := fun e he hs eq => hk.2.2.1 e ⟨he, hs⟩ eq
+    have kD : ∀ e ∈ p.data, selData cfg e = true → dataKey cfg e ≠ k := fun e he hs eq => hk.2.2.2 e ⟨he, hs⟩ eq
+    exact frame_trans (frame_trans (frame_trans (fr1 k kT) (fr2 k kH)) (fr3 k kM)) (fr4 k kD)
 
 include hdry honly hD hdest in
 /-- when every selected rule's destination already holds its node, the body changes nothing -/
 theorem filesBody_fixed (p : Plan) (hfo : FilesOnly p)
+    (hokT : ∀ t ∈ p.targets, okTarget t)
     (hokH : ∀ e ∈ p.headers, okData e) (hokM : ∀ e ∈ p.man, okData e) (hokD : ∀ e ∈ p.data, okData e)
     (s : St) (hNL : NL s.fs)
+    (hT : ∀ t ∈ p.targets, selTarget cfg t = true → s.fs.get (targetKey cfg t) = some (targetNode cfg t))
     (hH : ∀ e ∈ p.headers, selData cfg e = true → s.fs.get (headerKey cfg e) = some (fileNode cfg e))
     (hM : ∀ e ∈ p.man, selData cfg e = true → s.fs.get (dataKey cfg e) = some (fileNode cfg e))
     (hDd : ∀ e ∈ p.data, selData cfg e = true → s.fs.get (dataKey cfg e) = some (fileNode cfg e))
     (hf : (installBody cfg p s).failed = false) :
     ∀ k, (installBody cfg p s).fs.get k = s.fs.get k := by
-  obtain ⟨h1, h2, h3, h4⟩ := hfo
-  unfold installBody at hf ⊢
-  simp only [h1, h2, h3, h4, List.foldl_nil] at hf ⊢
+  obtain ⟨hbody, hf1, hf2, hf3⟩ := filesBody_phases cfg hdry honly hD hdest p hfo s hf
+  rw [hbody] at hf ⊢
+  have RT := ruleSpec_target cfg hdry honly hD hdest
   have RH := ruleSpec_header cfg hdry honly hD hdest
   have RM := ruleSpec_man cfg hdry honly hD hdest
   have RD := ruleSpec_data cfg hdry honly hD hdest
-  have hf2 : ((p.man.foldl (installMan cfg) (p.headers.foldl (installHeader cfg) s))).failed = false := by
-    by_cases e : (p.man.foldl (installMan cfg) (p.headers.foldl (installHeader cfg) s)).failed = true
-    · rw [foldl_failed_sticky RD _ _ e] at hf; rw [hf] at e; cases e
-    · simpa using e
-  have hf1 : (p.headers.foldl (installHeader cfg) s).failed = false := by
-    by_cases e : (p.headers.foldl (installHeader cfg) s).failed = true
-    · rw [foldl_failed_sticky RM _ _ e] at hf2; rw [hf2] at e; cases e
-    · simpa using e
-  obtain ⟨n1, e1⟩ := fold_rules_fixed RH p.headers hokH s hNL hH hf1
-  obtain ⟨n2, e2⟩ := fold_rules_fixed RM p.man hokM _ n1 (fun e he hs => by rw [e1]; exact hM e he hs) hf2
-  obtain ⟨_, e3⟩ := fold_rules_fixed RD p.data hokD _ n2 (fun e he hs => by rw [e2, e1]; exact hDd e he hs) hf
+  obtain ⟨n1, e1⟩ := fold_rules_fixed RT p.targets hokT s hNL hT hf1
+  obtain ⟨n2, e2⟩ := fold_rules_fixed RH p.headers hokH _ n1 (fun e he hs => by rw [e1]; exact hH e he hs) hf2
+  obtain ⟨n3, e3⟩ := fold_rules_fixed RM p.man hokM _ n2 (fun e he hs => by rw [e2, e1]; exact hM e he hs) hf3
+  obtain ⟨_, e4⟩ := fold_rules_fixed RD p.data hokD _ n3 (fun e he hs => by rw [e3, e2, e1]; exact hDd e he hs) hf
   intro k
-  rw [e3, e2, e1]
+  rw [e4, e3, e2, e1]
 
 end
 
